@@ -11,6 +11,10 @@ UNDERLIES = {
     'BW.process_lowest': {'C07'}, 'BW.process_event': {'C07'}, 'BW.write_stmt': {'C06', 'C07'}, 'BW.poll': {'C07'},
     # the sink end of "written and flushed"
     'BW.flush_sinks': {'C07'}, 'BW.collect_sinks': {'C07'}, 'SS.write_log': {'C07'}, 'SS.flush_sink': {'C07'}, 'FS.flush_sink': {'C07'},
+    # the record header: what the frontend writes is what the backend reads (a statement attributed to the wrong logger / metadata is not 'delivered once')
+    'LG.encode_header': {'C03'}, 'BW.header_slice': {'C03'},
+    # the pattern formatter hands the statement's timestamp to the timestamp formatter
+    'PF.format': {'C13'},
     # the frontend end: what a completed log call has put into the queue
     'LG.log_statement': {'C03', 'C06', 'C07'},
 }
